@@ -13,6 +13,7 @@
 // / res <tid> <results> / drain <values|STUCK|skipped> / fin tail head ninv abort live maxlive_excess / mon <verdict> /
 // dead <parked tids> (only on deadlock) / sched <tids> / end
 #include <oneapi/tbb/concurrent_queue.h>
+#include "verif_hb.h"                  // happens-before monitor over the finished log (ghost accesses: item cells, pages)
 #include "tbb/concurrent_monitor.h"      // white-box: the epoch words of the two monitors mark the abort_all() flushes
 #include <cstdio>
 #include <cstring>
@@ -21,12 +22,17 @@
 #include <vector>
 #include <set>
 #include <map>
+#include <sys/mman.h>
 
 #ifndef ELEM_SIZE
 #define ELEM_SIZE 8
 #endif
 
 struct CtorFail {};
+// ghost cells of the happens-before monitor: an item's payload (written by its producer before the push call, read by the consumer after a
+// successful pop) and a page (written by the allocating push and by the deallocation, read by every construction into / move-out of a slot)
+static constexpr uint64_t GHOST_ITEM = 1ull << 32, GHOST_PAGE = 2ull << 32;
+static long page_id_of(const void* a);
 struct Ctl { bool throw_ctor = false, fail_alloc = false, alloc_failed = false; };
 static thread_local Ctl tl;
 
@@ -48,6 +54,8 @@ struct Item {
         if (tl.throw_ctor) { tl.throw_ctor = false; throw CtorFail(); }
         if (o.magic != ALIVE) g_err = "element constructed from a dead object";
         v = o.v; magic = ALIVE; inq = 1; pad0 = 0; ++g_live;
+        verif::note("cons", (uint64_t)(unsigned)v, (uint64_t)(uintptr_t)this);
+        { long pid = page_id_of(this); if (pid >= 0) verif::note("gr", GHOST_PAGE + (uint64_t)pid, 0); }
         if (g_cap >= 0 && g_live > g_cap + g_pops_inflight) { long x = g_live - (g_cap + g_pops_inflight); if (x > g_excess) g_excess = x; }
     }
     Item(const Item& o) { born(o); }
@@ -55,6 +63,7 @@ struct Item {
     Item& operator=(Item&& o) {                      // micro_queue::assign_and_destroy_item: *dst = std::move(from)
         verif::pre(verif::K_LOAD, &g_move_probe, 0);   // the move-out is a scheduling point and a logged event
         if (o.magic != ALIVE) g_err = "pop moved out of a slot that holds no live element (magic " + std::to_string(o.magic) + ")";
+        { long pid = page_id_of(&o); if (pid >= 0) verif::note("gr", GHOST_PAGE + (uint64_t)pid, 0); }
         v = o.v;
         verif::post(verif::K_LOAD, &g_move_probe, 0, (uint64_t)(unsigned)o.v, 0, 1);
         return *this;
@@ -71,24 +80,57 @@ static_assert(sizeof(Item) == ELEM_SIZE, "element size class");
 template <class U> static auto is_page_f(int) -> decltype((void)std::declval<U&>().mask, (void)std::declval<U&>().next, std::true_type{});
 template <class U> static std::false_type is_page_f(...);
 
-static long g_pages_live = 0;
+// ---- page ledger: every padded_page lives in its own mmap'ed region; a freed page is poisoned, made inaccessible (PROT_NONE) and kept
+// in quarantine until the run ends, so an access after the free faults deterministically (reported with the schedule by the crash handler)
+struct PageReg { char* base; size_t bytes; size_t objsz; long id; bool live; };
+static std::vector<PageReg> g_pages;          // this run's pages, in allocation order (id = index)
+static long g_pages_live = 0, g_double_free = 0;
+static bool g_alloc_failed_run = false;     // a page allocation failed in this run: the queue is in the known broken regime
+static long page_id_of(const void* a) {
+    const char* c = (const char*)a;
+    for (auto& r : g_pages) if (c >= r.base && c < r.base + r.objsz) return r.id;
+    return -1;
+}
+static unsigned long long ptr_code(const void* p) {       // 0 = nullptr, 1 = the invalid-page marker, id + 2 = a page
+    if (!p) return 0;
+    if ((uintptr_t)p == 1) return 1;
+    long id = page_id_of(p);
+    return id < 0 ? 999999 : (unsigned long long)id + 2;
+}
+static void release_quarantine() {
+    for (auto& r : g_pages) munmap(r.base, r.bytes);
+    g_pages.clear();
+}
 template <class T> struct FA {
     using value_type = T;
     FA() = default;
     template <class U> FA(const FA<U>&) {}
     T* allocate(std::size_t n) {
         if constexpr (decltype(is_page_f<T>(0))::value) {
-            if (tl.fail_alloc) { tl.fail_alloc = false; tl.alloc_failed = true; throw std::bad_alloc(); }
-            T* p = static_cast<T*>(::operator new(n * sizeof(T)));
+            if (tl.fail_alloc) { tl.fail_alloc = false; tl.alloc_failed = true; g_alloc_failed_run = true; verif::note("allocfail", 0, 0); throw std::bad_alloc(); }
+            size_t bytes = (n * sizeof(T) + 4095) & ~size_t(4095);
+            void* m = mmap(nullptr, bytes, PROT_READ | PROT_WRITE, MAP_PRIVATE | MAP_ANONYMOUS, -1, 0);
+            if (m == MAP_FAILED) throw std::bad_alloc();
+            T* p = static_cast<T*>(m);
             std::memset((void*)p, 0xCD, n * sizeof(T));          // a slot that was never constructed holds no valid magic
             verif::name_addr(&p->mask, "mask");
+            g_pages.push_back(PageReg{(char*)m, bytes, n * sizeof(T), (long)g_pages.size(), true});
             ++g_pages_live;
+            verif::note("alloc", (uint64_t)g_pages.back().id, 0);
+            verif::note("gw", GHOST_PAGE + (uint64_t)g_pages.back().id, 0);
             return p;
         } else return static_cast<T*>(::operator new(n * sizeof(T)));
     }
     void deallocate(T* p, std::size_t) {
-        if constexpr (decltype(is_page_f<T>(0))::value) { --g_pages_live; std::memset((void*)p, 0xDD, sizeof(T)); }   // reads after free are recognisable
-        ::operator delete(p);
+        if constexpr (decltype(is_page_f<T>(0))::value) {
+            long id = page_id_of(p);
+            if (id < 0 || !g_pages[id].live) { ++g_double_free; g_err = "page freed twice or never allocated"; return; }
+            verif::note("free", (uint64_t)id, 0);
+            verif::note("gw", GHOST_PAGE + (uint64_t)id, 0);
+            --g_pages_live; g_pages[id].live = false;
+            std::memset((void*)p, 0xDD, sizeof(T));              // reads after free are recognisable ...
+            mprotect(g_pages[id].base, g_pages[id].bytes, PROT_NONE);   // ... and fault
+        } else ::operator delete(p);
     }
     template <class U> bool operator==(const FA<U>&) const { return true; }
     template <class U> bool operator!=(const FA<U>&) const { return false; }
@@ -114,10 +156,14 @@ template <class Rep> static void name_rep(Rep* rep) {
     for (std::size_t i = 0; i < Rep::n_queue; ++i) {
         verif::name_addr(&rep->array[i].tail_counter, "lt" + std::to_string(i));
         verif::name_addr(&rep->array[i].head_counter, "lh" + std::to_string(i));
+        verif::name_addr(&rep->array[i].head_page, "hp" + std::to_string(i));
+        verif::name_addr(&rep->array[i].tail_page, "tp" + std::to_string(i));
+        verif::name_addr(&rep->array[i].page_mutex.m_flag, "pm" + std::to_string(i));
     }
 }
 
 static bool wanted(const std::string& n) { return n != "-" && n.compare(0, 4, "anon") != 0; }
+static bool page_level_only(const std::string& n) { return n.size() > 2 && (n.compare(0, 2, "hp") == 0 || n.compare(0, 2, "tp") == 0 || n.compare(0, 2, "pm") == 0) && isdigit((unsigned char)n[2]); }
 
 template <class F> static ResS guarded_push(F&& f, OpS& eff, const OpS& op) {
     tl.throw_ctor = op.f == 'c'; tl.fail_alloc = op.f == 'a'; tl.alloc_failed = false;
@@ -134,7 +180,7 @@ template <class F> static ResS guarded_push(F&& f, OpS& eff, const OpS& op) {
 
 static bool run_once(verif::Schedule& sch, long run_idx, bool print) {
     UQ* uq = nullptr; BQ* bq = nullptr;
-    g_live = 0; g_pops_inflight = 0; g_excess = 0; g_err.clear(); g_pages_live = 0;
+    g_live = 0; g_pops_inflight = 0; g_excess = 0; g_err.clear(); g_pages_live = 0; g_double_free = 0; g_alloc_failed_run = false;
     g_cap = g_kind == 'b' ? g_cfg_cap : -1;
     verif::clear_names();
     verif::name_addr(&g_move_probe, "item");
@@ -162,6 +208,7 @@ static bool run_once(verif::Schedule& sch, long run_idx, bool print) {
             verif::note("b", eff[t].size() - 1, 0);
             // every public spelling of an insertion is exercised (value mod 3: const& / && / emplace): they must all behave like push
             const int var = (int)(((op.v % 3) + 3) % 3);
+            if (op.kind == "push" || op.kind == "bpush" || op.kind == "btrypush") verif::note("gw", GHOST_ITEM + (uint64_t)(unsigned)op.v, 0);
             if (op.kind == "push" && uq) { Item x((int)op.v); r = guarded_push([&] { if (var == 0) uq->push(x); else if (var == 1) uq->push(std::move(x)); else uq->emplace(x); return true; }, e, op); }
             else if (op.kind == "bpush" && bq) { Item x((int)op.v); r = guarded_push([&] { if (var == 0) bq->push(x); else if (var == 1) bq->push(std::move(x)); else bq->emplace(x); return true; }, e, op); }
             else if (op.kind == "btrypush" && bq) { Item x((int)op.v); r = guarded_push([&] { return var == 0 ? bq->try_push(x) : var == 1 ? bq->try_push(std::move(x)) : bq->try_emplace(x); }, e, op); }
@@ -169,11 +216,12 @@ static bool run_once(verif::Schedule& sch, long run_idx, bool print) {
                 Item d; ++g_pops_inflight;
                 bool ok = uq ? uq->try_pop(d) : bq->try_pop(d);
                 --g_pops_inflight;
+                if (ok) verif::note("gr", GHOST_ITEM + (uint64_t)(unsigned)d.v, 0);
                 r = ok ? ResS{Q_VAL, d.v} : ResS{Q_EMPTY, 0};
             }
             else if (op.kind == "bpop" && bq) {
                 Item d; ++g_pops_inflight;
-                try { bq->pop(d); r = ResS{Q_VAL, d.v}; } catch (tbb::user_abort&) { r.code = Q_ABORTED; }
+                try { bq->pop(d); verif::note("gr", GHOST_ITEM + (uint64_t)(unsigned)d.v, 0); r = ResS{Q_VAL, d.v}; } catch (tbb::user_abort&) { r.code = Q_ABORTED; }
                 --g_pops_inflight;
             }
             else if (op.kind == "abort" && bq) { bq->abort(); }
@@ -187,6 +235,55 @@ static bool run_once(verif::Schedule& sch, long run_idx, bool print) {
         }
     });
     verif::Result r = verif::run(bodies, sch);
+    {   // the visibility clauses: what a consumer reads of an item, and every access to a page, is ordered by happens-before as computed
+        // from the memory orders the code passed (a weakened order is invisible by values on this hardware)
+        verif::HbStats hst;
+        auto races = verif::hb_check(r.log, T, &hst);
+        if (!races.empty() && g_err.empty()) g_err = "hb-race " + verif::hb_describe(r.log, races[0]);
+    }
+    std::string snap;
+    if (!r.deadlock) {
+        auto walk = [&](auto* rep) {
+            for (std::size_t i = 0; i < std::remove_pointer<decltype(rep)>::type::n_queue; ++i) {
+                auto& mq = rep->array[i];
+                std::ostringstream os;
+                auto* h = mq.head_page.a.load(); auto* tp = mq.tail_page.a.load();
+                os << "pgfin " << i << " " << ptr_code(h) << " " << ptr_code(tp) << " chain";
+                int guard = 0;
+                for (auto* q = h; (uintptr_t)q > 1 && guard < 10000; q = q->next, ++guard) os << " " << ptr_code(q);
+                os << "\n";
+                snap += os.str();
+            }
+        };
+        if (uq) walk(uq->my_queue_representation); else walk(bq->my_queue_representation);
+        std::ostringstream os; os << "pglive";
+        for (auto& pr : g_pages) if (pr.live) os << " " << pr.id + 2;
+        os << "\n"; snap += os.str();
+        // the non-concurrent lane operations on this end state: copy construction (micro_queue::assign / make_copy) and clear() of the copy
+        auto probe = [&](auto* q) {
+            using Q = typename std::remove_pointer<decltype(q)>::type;
+            long before = g_pages_live, items_before = g_live;
+            long long saved_cap = g_cap; g_cap = -1;         // the copy's elements do not count against the original's capacity
+            Q* cp = new Q(*q);
+            auto* rep = cp->my_queue_representation;
+            for (std::size_t i = 0; i < std::remove_pointer<decltype(rep)>::type::n_queue; ++i) {
+                auto& mq = rep->array[i];
+                long np = 0, nit = 0;
+                std::size_t hidx = (mq.head_counter.a.load() / std::remove_pointer<decltype(rep)>::type::n_queue) % mq.items_per_page;
+                for (auto* pg = mq.head_page.a.load(); (uintptr_t)pg > 1 && np < 10000; pg = pg->next, ++np)
+                    for (std::size_t k = (np == 0 ? hidx : 0); k < mq.items_per_page; ++k)
+                        if ((pg->mask.a.load() >> k) & 1) { ++nit; if ((*pg)[k].magic != Item::ALIVE) g_err = "copy: mask bit set over a slot that holds no live element"; }
+                std::ostringstream o2; o2 << "pgcopy " << i << " " << np << " " << nit << "\n"; snap += o2.str();
+            }
+            long copied_pages = g_pages_live - before, copied_items = g_live - items_before;
+            cp->clear();
+            std::ostringstream o3; o3 << "pgclear " << copied_pages << " " << (g_pages_live - before) << " " << copied_items << " " << (g_live - items_before) << "\n"; snap += o3.str();
+            delete cp;
+            g_cap = saved_cap;
+        };
+        // (not after a failed page allocation: assign() walks through the invalid-page marker — the known alloc-failure regime)
+        if (!g_alloc_failed_run) { if (uq) probe(uq); else probe(bq); }
+    }
     // drain what is left (single controlled thread: a pop that can never finish shows up as a deadlock)
     std::vector<long> drained; bool drain_stuck = false, drained_ok = false;
     if (!r.deadlock && g_drain) {
@@ -203,6 +300,11 @@ static bool run_once(verif::Schedule& sch, long run_idx, bool print) {
     unsigned long long fninv = uq ? rep_u->n_invalid_entries.a.load() : rep_b->n_invalid_entries.a.load();
     unsigned fabort = bq ? bq->my_abort_counter.a.load() : 0;
     long live_after = g_live;
+    if (drained_ok) {
+        // the queue is drained: clear() (non-concurrent) must give back every page, each exactly once
+        if (uq) uq->clear(); else bq->clear();
+        if (g_err.empty() && g_pages_live != 0) g_err = "page leak: " + std::to_string(g_pages_live) + " page(s) still allocated after draining and clear()";
+    }
     long fsize = uq ? (long)uq->unsafe_size() : (long)bq->size();
     bool fempty = uq ? uq->empty() : bq->empty();
     bool ok = g_err.empty() && !r.deadlock && !drain_stuck && g_excess == 0;
@@ -222,6 +324,10 @@ static bool run_once(verif::Schedule& sch, long run_idx, bool print) {
         for (auto& e : r.log) {
             if (e.kind == verif::K_NOTE) {
                 if (!strcmp(e.tag, "setcap")) printf("e %d note setcap %llu 0 1\n", e.tid, (unsigned long long)e.a);
+                else if (!strcmp(e.tag, "alloc") || !strcmp(e.tag, "free")) printf("p %d %s page %llu 0\n", e.tid, e.tag, (unsigned long long)e.a + 2);
+                else if (!strcmp(e.tag, "allocfail")) printf("p %d allocfail page 0 0\n", e.tid);
+                else if (!strcmp(e.tag, "cons")) printf("p %d cons item %llu %llu\n", e.tid, (unsigned long long)e.a, ptr_code((const void*)(uintptr_t)e.b));
+                else if (!strcmp(e.tag, "gw") || !strcmp(e.tag, "gr")) {}
                 else printf("n %d %s %llu %llu\n", e.tid, e.tag, (unsigned long long)e.a, (unsigned long long)e.b);
                 continue;
             }
@@ -234,8 +340,16 @@ static bool run_once(verif::Schedule& sch, long run_idx, bool print) {
             if (n == "item") { k = "move"; b = 0; }
             else if (e.kind == verif::K_LOAD || e.kind == verif::K_STORE) b = 0;
             if (n == "abort" || n == "ep0" || n == "ep1") { a &= 0xffffffffull; b &= 0xffffffffull; }
-            printf("e %d %s %s %llu %llu %d\n", e.tid, k, n.c_str(), a, b, e.ok);
+            if (!page_level_only(n)) printf("e %d %s %s %llu %llu %d\n", e.tid, k, n.c_str(), a, b, e.ok);
+            // page-level view of the same access (lane turnstiles, head_page / tail_page, page_mutex, masks, the element move-out)
+            if (n.compare(0, 2, "hp") == 0 || n.compare(0, 2, "tp") == 0) printf("p %d %s %s %llu 0\n", e.tid, k, n.c_str(), ptr_code((const void*)(uintptr_t)e.a));
+            else if (n.compare(0, 2, "pm") == 0) printf("p %d %s %s %llu %llu\n", e.tid, k, n.c_str(), a & 1, (e.kind == verif::K_XCHG ? (unsigned long long)(e.b & 1) : 0ull));
+            else if (n.compare(0, 2, "lt") == 0 || n.compare(0, 2, "lh") == 0) printf("p %d %s %s %llu 0\n", e.tid, k, n.c_str(), a);
+            else if (n == "mask") printf("p %d %s mask %llu %llu\n", e.tid, k, a, ptr_code(e.addr));
+            else if (n == "item") printf("p %d move item %llu 0\n", e.tid, a);
         }
+        // page-level snapshot of every lane after the threads finished (white-box walk of the page chains), before the drain
+        printf("%s", snap.c_str());
         for (size_t t = 0; t < T; ++t) {
             printf("res %zu", t);
             for (auto& x : res[t]) { if (x.code == Q_VAL) printf(" val:%ld", x.v); else printf(" %s", rc_name(x.code)); }
@@ -252,6 +366,7 @@ static bool run_once(verif::Schedule& sch, long run_idx, bool print) {
     }
     if (r.deadlock || drain_stuck) { fflush(stdout); _exit(3); }
     delete uq; delete bq;
+    release_quarantine();
     return ok;
 }
 
@@ -273,6 +388,7 @@ struct ScriptSchedule : verif::Schedule {
 
 int main(int argc, char** argv) {
     if (argc < 3) return 2;
+    verif::report_crashes();
     char line[4096];
     while (fgets(line, sizeof line, stdin)) {
         std::istringstream is(line); std::string w; is >> w;
